@@ -100,9 +100,12 @@ def replay_hist(tab: Table, hist):
     if not steps or steps[-1]["a"] != "eval":
         steps.append({"a": "eval", "name": "", "v": 0, "how": ""})
 
-    def report():
-        c = ab.aberration_coefficients
+    def report_of(o):
+        c = o.aberration_coefficients
         return [[s, tab.vid(s, c[s])] for s in tab.symbols]
+
+    def report():
+        return report_of(ab)
 
     for st in steps:
         ev = {"a": st["a"], "name": st["name"], "v": st["v"], "how": st["how"], "raised": False, "coeffs": [], "got": 0,
@@ -123,6 +126,22 @@ def replay_hist(tab: Table, hist):
                 ref = np.exp(-2j * np.pi * tab.chi(c, A, P) / lam)
                 got = evaluate(ab, A, P)
                 ev["err_ppb"] = ppb(float(np.abs(got - ref).max()))
+                # the same object through a copy / deepcopy / pickle round trip: same coefficients, same evaluation
+                from ..routes import reroute
+                twin, _route = reroute(ab, 1 + len(trace))
+                if report_of(twin) != report():
+                    ev["err_ppb"] = max(ev["err_ppb"], 10 ** 9)
+                ev["err_ppb"] = max(ev["err_ppb"], ppb(float(np.abs(evaluate(twin, A, P) - ref).max())))
+                # an aberration object without an energy of its own, applied (eagerly) to waves of one energy and then to waves of another:
+                # the second application is that of a fresh object
+                bare = abtem.transfer.Aberrations(**{s: float(c[s]) for s in tab.symbols})
+                noise = np.random.default_rng(5).normal(size=(2, 18, 18))
+                w_hi = abtem.Waves((noise[0] + 1j * noise[1]).astype(np.complex64), energy=200e3, extent=12.0)
+                w_lo = abtem.Waves((noise[0] + 1j * noise[1]).astype(np.complex64), energy=60e3, extent=12.0)
+                bare.apply(w_hi)
+                second = np.asarray(bare.apply(w_lo).array)
+                fresh = np.asarray(abtem.transfer.Aberrations(**{s: float(c[s]) for s in tab.symbols}).apply(w_lo).array)
+                ev["err_ppb"] = max(ev["err_ppb"], ppb(float(np.abs(second - fresh).max())))
                 delta = 0.37
                 rot = abtem.transfer.Aberrations(energy=ENERGY, **{s: (float(c[s]) + delta if s in tab.angle_syms else float(c[s]))
                                                                    for s in tab.symbols})
